@@ -4,10 +4,10 @@
 (* civil part, C20).  Each event kind is one action; chain events carry    *)
 (* the cursor `cur` between lines, frames are self-contained.              *)
 (***************************************************************************)
-EXTENDS Civil, TraceKit
+EXTENDS Civil, Forms, TraceKit
 
-VARIABLES cur
-tvars == << l, rej, cur >>
+VARIABLES cur, aux
+tvars == << l, rej, cur, aux >>
 
 Fields(a) == LET t == YmdOf(a.jdn)
              IN << t[1], t[2], t[3], HourOf(a.sod), MinuteOf(a.sod), SecondOf(a.sod) >>
@@ -63,7 +63,7 @@ C04DayChecks(e) ==
                    + Chk("C04.isBefore", pk, (x[12] = 1) <=> Before(a, b))
                    + Chk("C04.isAfter", pk, (x[13] = 1) <=> After(a, b)))
 
-C04Day == IsEv("C04Day") /\ Consume(C04DayChecks(Trace[l])) /\ UNCHANGED cur
+C04Day == IsEv("C04Day") /\ Consume(C04DayChecks(Trace[l])) /\ UNCHANGED << cur, aux >>
 
 (***************************************************************************)
 (* Stepping, observed as an edge (stateless) or as a chain step (stateful).*)
@@ -82,13 +82,14 @@ C04Edge ==
      IN Consume(IF e.p = 2 \/ ~ValidYmd(e.from[1], e.from[2], e.from[3])
                   THEN Chk("C04.edge.from-rejected", key, FALSE)
                   ELSE StepChecks("C04.edge." \o e.op, key, Inst(JDN(e.from[1], e.from[2], e.from[3]), e.from[4]), e))
-  /\ UNCHANGED cur
+  /\ UNCHANGED << cur, aux >>
 
 C04Start ==
   /\ IsEv("C04Start")
   /\ LET e == Trace[l]
      IN /\ Consume(Chk("C04.chain.start", e.at, ValidRes(e.at)))
         /\ cur' = IF ValidRes(e.at) THEN InstOfRes(e.at) ELSE cur
+        /\ UNCHANGED aux
 
 C04Step ==
   /\ IsEv("C04Step")
@@ -98,6 +99,7 @@ C04Step ==
         \* resynchronise on the observed state so the rest of the chain is still checked
         /\ cur' = IF e.p = 0 /\ ValidRes(e.res) THEN InstOfRes(e.res)
                   ELSE IF Defined(e.op, cur, e.n) THEN Apply(e.op, cur, e.n) ELSE cur
+        /\ UNCHANGED aux
 
 (***************************************************************************)
 (* C07: constructors accept exactly what exists.                           *)
@@ -110,7 +112,7 @@ C07Civil ==
                   LET d == i - 2
                   IN Chk(IF e.o[i] = 1 THEN "C07.civil.rejected-existing-date" ELSE "C07.civil.accepted-nonexistent-date",
                          << e.y, e.m, d >>, (e.o[i] = 0) <=> ValidYmd(e.y, e.m, d))))
-  /\ UNCHANGED cur
+  /\ UNCHANGED << cur, aux >>
 
 C07Time ==
   /\ IsEv("C07Time")
@@ -122,7 +124,7 @@ C07Time ==
                      + (IF x[4] = 0 /\ Len(x) = 10
                           THEN Chk("C07.civil.fields", key, << x[5], x[6], x[7], x[8], x[9], x[10] >> = << e.y, e.m, e.d, x[1], x[2], x[3] >>)
                           ELSE 0)))
-  /\ UNCHANGED cur
+  /\ UNCHANGED << cur, aux >>
 
 \* the lunar (year, month, day) triples that are the image of some civil day
 C07Lunar ==
@@ -152,13 +154,14 @@ C07Lunar ==
                     IN Chk("C07.lunar.time-outcome", key, (x[4] = 0) <=> ok)
                        + Chk("C07.tao.time-outcome", key, (x[5] = 0) <=> ok)
                        + Chk("C07.foto.time-outcome", key, (x[6] = 0) <=> ok)))
-  /\ UNCHANGED cur
+  /\ UNCHANGED << cur, aux >>
 
 C07Start ==
   /\ IsEv("C07Start")
   /\ LET e == Trace[l]
      IN /\ Consume(Chk("C07.chain.start", e.at, ValidRes(e.at)))
         /\ cur' = IF ValidRes(e.at) THEN InstOfRes(e.at) ELSE cur
+        /\ UNCHANGED aux
 
 \* shape of a lunar-side object met on the way (its exact validity against the
 \* month tables is C01 / C06; here: no field outside its type)
@@ -174,6 +177,7 @@ C07Step ==
                         THEN Chk("C07.chain.lunar-shape", << key, e.lun >>, LunarShape(e.lun, t)) ELSE 0))
         /\ cur' = IF e.p = 0 /\ ValidRes(e.res) THEN InstOfRes(e.res)
                   ELSE IF Defined(e.op, cur, e.n) THEN Apply(e.op, cur, e.n) ELSE cur
+        /\ UNCHANGED aux
 
 (***************************************************************************)
 (* C15: civil weeks / months / seasons / half-years / years.               *)
@@ -212,7 +216,7 @@ C15Month ==
               Chk("C15.week.index", << key, x[1] >>, x[2] = 0 /\ x[3] = WeekIndexInMonth(e.y, e.m, x[1], e.s))
               + Chk("C15.week.indexInYear", << key, x[1] >>, x[2] = 0 /\ x[4] = WeekIndexInYear(e.y, e.m, x[1], e.s))
               + Chk("C15.week.firstDay", << key, x[1] >>, x[2] = 0 /\ << x[5], x[6], x[7] >> = Y3(WeekFirst(JDN(e.y, e.m, x[1]), e.s)))))
-  /\ UNCHANGED cur
+  /\ UNCHANGED << cur, aux >>
 
 C15Units ==
   /\ IsEv("C15Units")
@@ -222,7 +226,7 @@ C15Units ==
           + SumSeq(e.per, LAMBDA x :
               Chk("C15.season", << e.y, x.m >>, x.si = SeasonIndex(x.m) /\ x.sm = [i \in 1..3 |-> << e.y, SeasonMonths(x.m)[i] >>])
               + Chk("C15.halfYear", << e.y, x.m >>, x.hi = HalfYearIndex(x.m) /\ x.hm = [i \in 1..6 |-> << e.y, HalfYearMonths(x.m)[i] >>])))
-  /\ UNCHANGED cur
+  /\ UNCHANGED << cur, aux >>
 
 C15Nav ==
   /\ IsEv("C15Nav")
@@ -258,10 +262,82 @@ C15Nav ==
                  + Chk("C15.halfYear.next", k, x[12] = h1[1] /\ x[14] = HalfYearIndex(h1[2]) /\ HalfYearIndex(x[13]) = x[14]
                                               /\ x[15] = a[1] /\ x[17] = HalfYearIndex(a[2]))
                  + Chk("C15.year.next", k, x[18] = a[1] + n /\ x[19] = a[1])))
-  /\ UNCHANGED cur
+  /\ UNCHANGED << cur, aux >>
 
-TraceInit == KitInit /\ cur = Inst(JdnMin, 0)
+(***************************************************************************)
+(* C19: printed forms.                                                     *)
+(***************************************************************************)
+C19Year ==
+  /\ IsEv("C19Year")
+  /\ LET e == Trace[l]
+         R == e.rows
+         n == Len(R)
+     IN Consume(
+          SumSeq(R, LAMBDA x :
+            LET k == << x.c[1], x.c[2], x.c[3] >>
+            IN Chk("C19.civil.ymd", << k, x.ymd >>, x.ymd = FmtYmd(x.c[1], x.c[2], x.c[3]) /\ x.str = x.ymd)
+               + Chk("C19.civil.ymdhms", << k, x.hms >>, x.hms = FmtYmdHms(x.c[1], x.c[2], x.c[3], x.c[4], x.c[5], x.c[6]))
+               + Chk("C19.civil.parse", k, /\ WellFormedYmd(x.ymd) /\ WellFormedYmdHms(x.hms)
+                                           /\ ParseYmd(x.ymd) = k /\ ParseYmdHms(x.hms) = x.c)
+               + (IF x.p # 0 THEN Chk("C19.lunar.panic", k, FALSE)
+                  ELSE Chk("C19.lunar.render", << k, x.l, x.ls >>, x.ls = RenderLunar(x.l[1], x.l[2], x.l[3]))
+                       + Chk("C19.lunar.parse", << k, x.l, x.ls >>, WellFormedLunar(x.ls) /\ ParseLunar(x.ls) = x.l)
+                       + Chk("C19.tao.render", << k, x.t, x.ts >>, x.ts = RenderLunar(x.t[1], x.t[2], x.t[3])
+                                                                   /\ WellFormedLunar(x.ts) /\ ParseLunar(x.ts) = x.t)
+                       + Chk("C19.foto.render", << k, x.f, x.fs >>, x.fs = RenderLunar(x.f[1], x.f[2], x.f[3])
+                                                                    /\ WellFormedLunar(x.fs) /\ ParseLunar(x.fs) = x.f)))
+          \* chronological order of the days of the year = lexicographic order of what they print
+          + SumN(n - 1, LAMBDA i :
+              Chk("C19.civil.order", << e.y, R[i].c, R[i + 1].c >>,
+                  LexCmp(R[i].hms, R[i + 1].hms) = -1 /\ LexCmp(R[i].ymd, R[i + 1].ymd) = -1))
+          \* distinct dates never print alike
+          + Chk("C19.lunar.distinct", e.y, Cardinality({ R[i].ls : i \in { j \in 1..n : R[j].p = 0 } }) = Cardinality({ j \in 1..n : R[j].p = 0 }))
+          + Chk("C19.tao.distinct", e.y, Cardinality({ R[i].ts : i \in { j \in 1..n : R[j].p = 0 } }) = Cardinality({ j \in 1..n : R[j].p = 0 }))
+          + Chk("C19.foto.distinct", e.y, Cardinality({ R[i].fs : i \in { j \in 1..n : R[j].p = 0 } }) = Cardinality({ j \in 1..n : R[j].p = 0 })))
+  /\ UNCHANGED << cur, aux >>
+
+(***************************************************************************)
+(* C20: zodiac and rule-based civil festivals.                             *)
+(***************************************************************************)
+SeqSet(s) == { s[i] : i \in 1..Len(s) }
+C20Rules ==
+  /\ IsEv("C20Rules")
+  /\ LET e == Trace[l]
+     IN Consume(Chk("C20.rules.fixed", SeqSet(e.fixed), SeqSet(e.fixed) = FixedFestivals)
+                + Chk("C20.rules.week", SeqSet(e.week), SeqSet(e.week) = WeekFestivals)
+                + Chk("C20.rules.zodiac", e.zodiac, e.zodiac = XingZuo))
+  /\ aux' = Trace[l] /\ UNCHANGED cur
+
+ExpectedFestivals(y, m, d) ==
+  { r[3] : r \in { q \in FixedFestivals : q[1] = m /\ q[2] = d } }
+  \cup { r[4] : r \in { q \in WeekFestivals : q[1] = m /\ ((q[2] > 0 /\ IsKthWeekday(y, m, d, q[2], q[3]))
+                                                         \/ (q[2] = 0 /\ IsLastWeekday(y, m, d, q[3]))) } }
+C20Year ==
+  /\ IsEv("C20Year")
+  /\ LET e == Trace[l]
+         R == e.rows
+         other == aux.other
+         OtherOf(m, d) == LET c == { i \in 1..Len(other) : other[i][1] = m /\ other[i][2] = d }
+                          IN IF c = {} THEN << >> ELSE other[CHOOSE i \in c : TRUE][3]
+     IN Consume(
+          SumSeq(R, LAMBDA x :
+            LET k == << e.y, x.m, x.d >>
+            IN IF x.p # 0 THEN Chk("C20.panic", k, FALSE)
+               ELSE Chk("C20.zodiac", << k, x.z >>, x.z = XingZuo[ZodiacOf(x.m, x.d) + 1] /\ x.z2 = x.z)
+                    + Chk("C20.festivals", << k, x.f >>, SeqSet(x.f) = ExpectedFestivals(e.y, x.m, x.d) /\ Len(x.f) = Cardinality(SeqSet(x.f)))
+                    + Chk("C20.otherFestivals", << k, x.o >>, x.o = OtherOf(x.m, x.d)))
+          \* each weekday-rule festival is reported exactly once per year
+          + SumSeq(SetToSeq(WeekFestivals), LAMBDA q :
+              Chk("C20.once-per-year", << e.y, q >>,
+                  Cardinality({ i \in 1..Len(R) : R[i].p = 0 /\ q[4] \in SeqSet(R[i].f) }) = 1))
+          + SumSeq(SetToSeq(FixedFestivals), LAMBDA q :
+              Chk("C20.once-per-year", << e.y, q >>,
+                  Cardinality({ i \in 1..Len(R) : R[i].p = 0 /\ q[3] \in SeqSet(R[i].f) }) = 1)))
+  /\ UNCHANGED << cur, aux >>
+
+TraceInit == KitInit /\ cur = Inst(JdnMin, 0) /\ aux = [ev |-> "none"]
 TraceNext == C04Day \/ C04Edge \/ C04Start \/ C04Step \/ C07Civil \/ C07Time \/ C07Lunar \/ C07Start \/ C07Step
              \/ C15Month \/ C15Units \/ C15Nav
+             \/ C19Year \/ C20Rules \/ C20Year
 TraceSpec == TraceInit /\ [][TraceNext]_tvars
 =============================================================================
